@@ -19,7 +19,8 @@ EXPLANATION = (
     "the reviewed regularisation restore; P->map.P, A->map.A; QDLDL indexes through AtoPAPt; the LDL back ends (QDLDL, faer) agree on what update_values / scale_values / offset_values do to their own copy; (R6) equilibration "
     "happens once, at construction."
     " (R10) in every update form the bound test, the stored element and the equilibration entries use the same index (row/column of that entry for matrices); tuple forms without stores delegate unchanged; (R1, sdp) is_chordal_decomposed is true exactly when decomposition data exists."
-    " R2 also: every returning path of the matrix form passes through the sparsity comparison; R4 also: the cached norms are initialised and recomputed with the same (infinity) norm.")
+    " R2 also: every returning path of the matrix form passes through the sparsity comparison; R4 also: the cached norms are initialised and recomputed with the same (infinity) norm."
+    " (R11) index_to_coord, which gives the index forms the row and column of a stored entry, inverts colptr (C16.R7 re-run).")
 ASSUMPTIONS = ['rustc MIR construction and trait resolution are correct', 'algebra primitives have their documented meaning']
 
 MUTATORS = {'copy_from_slice', 'lrscale', 'lscale', 'rscale', 'scale', 'hadamard', 'copy_from', 'fill', 'set', 'index_mut'}
@@ -460,6 +461,9 @@ def run(ctx, rep, tier):
         c05.fresh_start(c04._Ren(rep, 'C05.R6', 'C08.R9'), ctx.facts(cfg), ctx.eff(cfg), ctx.cg(cfg), '' if cfg == 'default' else '[%s]' % cfg)
     from . import units_rules
     units_rules.c08(ctx, rep)
+    # the index forms find the row / column of a stored entry with index_to_coord (C16.R7 re-run)
+    from . import c16
+    c16.triangle(rep, ctx.facts('default'), '', 'C08.R11')
     if tier == 'thorough':
         from . import witness
         witness.run(rep, 'C08.R7', ['update_needs_mut'])
